@@ -82,7 +82,7 @@ def run(ctx):
             for ev in resets:
                 f.write(json.dumps(ev) + "\n")
     binp = ctx.build("c16")
-    trace = ctx.drive(binp, ["--script", script], env={"VERIF_REPEAT": "2" if not ctx.replay else "10"})
+    trace = ctx.drive(binp, ["--script", script], env={"VERIF_REPEAT": "3" if not ctx.replay else "10"})
 
     def mutate(evs):
         for i, e in enumerate(evs):
@@ -94,7 +94,7 @@ def run(ctx):
 
     ctx.judge("PlanCheckTrace", trace, "trace_base.cfg", JUDGE_CONSTS,
               nontrivial=lambda e: any('"ev":"ecmove"' in x for x in e), mutate=mutate)
-    ctx.rule = ("executions = one dry-run of the real ec.balance planner on a snapshot, each snapshot planned twice (the "
+    ctx.rule = ("executions = one dry-run of the real ec.balance planner on a snapshot, each snapshot planned three times (the "
                 "planner iterates over Go maps); snapshots = TLC-sampled layouts of 1-2 14-shard volumes on 5-7 servers with "
                 "duplicated shards and slack 0/1 (%d) + seeded random layouts (up to 14 servers, 6 ec volumes, missing / "
                 "duplicated shards, normal volumes taking slots); every planned shard move is one event, the final event "
